@@ -967,7 +967,8 @@ def generate(tier, rng):
       yield {**base, 'crashes': [p]}
     # deeper histories
     if full:
-      firsts = pts if cfg['R'] <= 3 and cfg['evf'] == 0 else rng.sample(pts, min(len(pts), 3))
+      firsts = pts if cfg['R'] <= 3 and cfg['evf'] == 0 and cfg['keep'] <= 2 and not base['form'] & 4 else \
+          rng.sample(pts, min(len(pts), 3))
     else:
       firsts = rng.sample(pts, min(len(pts), 3)) if i % 6 == 0 else []
     for p1 in firsts:
